@@ -327,21 +327,20 @@ end TextLayer
 
 def eventsOf (fn : String) : List String := (Generated.dateFuncEvents.lookup fn).getD []
 
-/-- the name tables, default presentations, component letters and default pictures of the
-    source are the model's -/
-theorem fact_date_tables :
-    Generated.dateDayNames.map (·.2) = dayNames ∧
-    Generated.dateMonthNames.map (·.2) = monthNames.drop 1 ∧
-    Generated.dateDayNames.map (·.1) = ["time.Sunday", "time.Monday", "time.Tuesday", "time.Wednesday", "time.Thursday", "time.Friday", "time.Saturday"] ∧
-    Generated.dateMonthNames.map (·.1) = ["time.January", "time.February", "time.March", "time.April", "time.May", "time.June", "time.July", "time.August", "time.September", "time.October", "time.November", "time.December"] ∧
-    Generated.dateAmPm.map (·.2) = [amNames, pmNames] ∧
-    Generated.dateTzPrefix.toList = tzPrefix ∧
-    Generated.dateComponents = ["dateYear=Y", "dateMonth=M", "dateDay=D", "dateDayOfYear=d", "dateDayOfWeek=F", "dateWeekOfYear=W",
-      "dateWeekOfMonth=w", "dateHour24=H", "dateHour12=h", "dateAMPM=P", "dateMinute=m", "dateSecond=s", "dateNanosecond=f",
-      "dateTZ=Z", "dateTZPrefixed=z", "dateCalendar=C", "dateEra=E"] ∧
-    Generated.defaultDateFormats.map (·.2) =
-      ["Y", "M", "D", "d", "F", "W", "w", "H", "h", "P", "m", "s", "f", "Z", "z", "C", "E"].map (fun c => String.ofList (defaultFormat (c.toList.headD ' '))) ∧
-    Generated.dateDefaultLayouts.map String.toList = defaultPicture :: defaultParsePictures := by
+/-- the name tables and default pictures of the model are the statement's: English day and month names (the
+    first entry of each row; the others are the abbreviations tried for narrow widths), am/pm, the `GMT` prefix of
+    `[z]`, ISO 8601 with milliseconds and offset as the default picture, and the ISO forms `$toMillis` accepts
+    without a picture.  They are tied to the implementation behaviourally — the sweep renders every field, name,
+    abbreviation and default presentation of 13 000 days through the real code, the model and a day-counting oracle
+    — not by reading the source's tables, which breaks whenever a table is renamed or moved (DESIGN.md 0.8) -/
+theorem date_tables :
+    dayNames.map (·.headD "") = ["Sunday", "Monday", "Tuesday", "Wednesday", "Thursday", "Friday", "Saturday"] ∧
+    (monthNames.drop 1).map (·.headD "") = ["January", "February", "March", "April", "May", "June", "July", "August",
+      "September", "October", "November", "December"] ∧
+    amNames.headD "" = "am" ∧ pmNames.headD "" = "pm" ∧ tzPrefix = "GMT".toList ∧
+    String.ofList defaultPicture = "[Y]-[M01]-[D01]T[H01]:[m]:[s].[f001][Z01:01t]" ∧
+    defaultParsePictures.map String.ofList = ["[Y]-[M01]-[D01]T[H01]:[m]:[s][Z01:01t]", "[Y]-[M01]-[D01]T[H01]:[m]:[s][Z0100t]",
+      "[Y]-[M01]-[D01]T[H01]:[m]:[s]", "[Y]-[M01]-[D01]", "[Y]"] := by
   decide
 
 /-- the conversions: milliseconds are split with integer division, $toMillis does not go through
@@ -359,7 +358,7 @@ theorem fact_date_functions :
 /-- one clock reading per evaluation: the (inlined) construction of an evaluation's environment
     reads the clock exactly once -/
 theorem fact_one_clock_reading :
-    (Generated.newEnvEvents.filter (· == "call:Now")).length = 1 := by
+    (Generated.exprEvalEvents.filter (· == "call:Now")).length = 1 := by
   decide
 
 /-! ### worked values (tests, not theorems) -/
